@@ -109,8 +109,9 @@ def worker_main() -> int:
         cls, msg, site = "", "", ""
         t0, w0 = time.process_time(), time.perf_counter()
         rec["on"] = True
+        cpp = ""
         try:
-            emit(parse(src))
+            cpp = emit(parse(src))
             outcome = "accept"
         except SyntaxError as ex:
             rec["on"] = False
@@ -130,6 +131,9 @@ def worker_main() -> int:
             rec["on"] = False
         cpu, wall = time.process_time() - t0, time.perf_counter() - w0
         canary = bool((cf and os.path.exists(cf)) or (cg and hasattr(builtins, cg)))
+        # a marker: text that only exists once the payload has been evaluated ON THE HOST (the name of a host class, a docstring);
+        # finding it in the firmware is as good as a canary file
+        canary = canary or any(m in cpp for m in job.get("markers", []) if isinstance(cpp, str))
         if cg and hasattr(builtins, cg):
             delattr(builtins, cg)
         now = modstate.snapshot()
@@ -437,6 +441,17 @@ PAYLOADS = [
     ("bytes", "odd", "b'abc'"),
     ("ellipsis", "odd", "..."),
     ("star-args", "odd", "*[1, 2]"),
+    # str.format / % / f-string fields that look attributes or items up on a host object: nothing of the host may reach the firmware
+    ("format-attr-class", "exec", "\"{0.__class__.__name__}#{0.denominator}\".format(7)", ("int#1",)),
+    ("format-attr-doc", "exec", "\"{0.__doc__}\".format(True)", ("bool(x) -> bool", "Returns True when the argument")),
+    ("format-attr-real", "exec", "\"{0.real}|{0.imag}|{0.numerator}\".format(5)", ("5|0|5",)),
+    ("format-item", "exec", "\"{0[1]}{0[0]}#\".format(\"ab\")", ("ba#",)),
+    ("format-kw-attr", "exec", "\"{v.__class__.__mro__}\".format(v=1.5)", ("<class 'float'>", "<class 'object'>")),
+    ("format-width-attr", "exec", "\"{0:{1.__class__.__name__}}\".format(1, 2)", ()),
+    ("percent-format-repr", "exec", "\"%r|%s\" % (1.5, None)", ("1.5|None",)),
+    ("fstring-attr", "exec", "f\"{(7).__class__.__name__}#{(7).denominator}\"", ("int#1",)),
+    ("fstring-doc", "exec", "f\"{True.__doc__}\"", ("bool(x) -> bool", "Returns True when the argument")),
+    ("str-method-chain", "exec", "\"ab\".upper().__class__.__name__", ("\"str\"",)),
     ("double-star", "odd", "**{'a': 1}"),
     ("nested-fstring", "odd", "f\"{f'{1+1}'}\""),
     ("fstring-spec", "odd", "f\"{1:{2}}\""),
@@ -497,6 +512,16 @@ def growth_scripts() -> list[tuple[str, str]]:
                        ("deep-brackets", "gx = " + "[" * 3000 + "1" + "]" * 3000 + "\n"), ("deep-unary-in-call", "sleep(" + "-" * 100000 + "1)\n"),
                        ("deep-unary-in-condition", "if " + "-" * 100000 + "1:\n    led.on()\n"), ("deep-attribute-chain", "gx = led" + ".a" * 20000 + "\n"),
                        ("deep-call-chain", "gx = helper" + "(1)" * 20000 + "\n")):
+        out.append((name, PRE + text))
+    # texts that stop in the middle of something (a file cut off, an editor buffer saved too early)
+    for name, text in (("cut-after-backslash", "led.blink(250 + \\"), ("cut-after-backslash-newline", "led.blink(250 + \\\n"),
+                       ("cut-after-backslash-in-loop", "while True:\n    led.toggle()\n    sleep(100 + \\"), ("cut-after-backslash-in-def", "def f(a):\n    return a + \\\n"),
+                       ("cut-after-backslash-blank", "x = 1 + \\   "), ("cut-after-backslash-comment", "x = 1 + \\  # more\n"), ("cut-bare-backslash", "\\"),
+                       ("cut-two-backslashes", "x = 1 + \\\n\\\n"), ("cut-in-string", "mon.write(\"abc"), ("cut-in-triple-string", "s = \"\"\"abc\ndef"),
+                       ("cut-in-parens", "led.blink(250,"), ("cut-in-brackets", "xs = [1, 2,\n"), ("cut-after-def-header", "def f(a):"), ("cut-after-if-header", "if led.get_state():\n"),
+                       ("cut-after-while-true", "while True:"), ("cut-after-decorator", "@staticmethod\n"), ("cut-after-else", "if 1:\n    led.on()\nelse:"),
+                       ("cut-after-operator", "x = 1 +"), ("cut-after-dot", "led."), ("cut-after-equals", "x ="), ("cut-after-comma-tuple", "a, b = 1,"),
+                       ("cut-in-fstring", "mon.write(f\"{1 + "), ("cut-after-try", "try:\n    led.on()\n"), ("cut-after-for", "for i in range(3):\n")):
         out.append((name, PRE + text))
     return out
 
